@@ -724,10 +724,32 @@ func (c *Ctx) ruleC14NameIsPath() {
 					}
 					return true
 				}
+				if rcal != nil && !fsPrimitive(rcal) {
+					// content = g(<bytes read from a path>): the bytes are changed on the way to the file object
+					for _, a := range rc.Args {
+						inner, _ := definingCall(f, a)
+						if inner == nil {
+							inner, _ = ast.Unparen(a).(*ast.CallExpr)
+						}
+						if inner != nil {
+							if g := callee(pk, inner); g != nil && fsPrimitive(g) {
+								n++
+								r.Bad("C14-NAME-IS-PATH", key+" (content)", "the bytes read from the file pass through "+exprString(rc.Fun)+" before they become the content of the file object: positions in it (lines of errors and of include traces) are no longer positions in the file on disk", c.pos(call.Pos()))
+							}
+						}
+					}
+					return true
+				}
 				if rcal == nil || !fsPrimitive(rcal) || len(rc.Args) < 1 {
 					return true
 				}
 				n++
+				// the path the content is read from must still be the path the caller gave: a parameter that the function
+				// rewrites (symbolic links resolved, made absolute, cleaned) names the file differently from the INCLUDE
+				if pi := paramIndexOf(f, rc.Args[0]); pi >= 0 && paramAssigned(f, rc.Args[0]) {
+					r.Bad("C14-NAME-IS-PATH", key+" (path rewritten)", "the path parameter "+exprString(rc.Args[0])+" is reassigned before the file is read and named: the file object, and with it every error location, every include-trace line and the directory against which its own INCLUDEs are resolved, carries another name than the one the INCLUDE directive (or the caller) gave", c.pos(call.Pos()))
+					return true
+				}
 				if c.stableExpr(f, call.Args[0], nil) == c.stableExpr(f, rc.Args[0], nil) {
 					r.Ok("C14-NAME-IS-PATH", key, "named by the path its content was read from", c.pos(call.Pos()))
 				} else {
